@@ -41,7 +41,7 @@ VARIABLES c,       \* index of the definition
 vars == <<c, w, pos, out, status>>
 
 NC == Len(Defs)
-PatsOf == TLCEval([k \in 1..NC |-> Pats(Defs[k])])
+PatsOf == [k \in 1..NC |-> Pats(Defs[k])]
 
 RECURSIVE ByteLen(_, _, _)
 ByteLen(bl, ww, n) == IF n = 0 THEN 0 ELSE ByteLen(bl, ww, n - 1) + bl[ww[n]]
